@@ -29,7 +29,10 @@ class Future(_cf.Future):
 
 
 def _done(f):
-  return f._state in (CANCELLED, CANCELLED_AND_NOTIFIED, FINISHED)
+  # As the real wait()/as_completed(): a future that was cancel()led counts
+  # only once a worker has acknowledged it (set_running_or_notify_cancel ->
+  # CANCELLED_AND_NOTIFIED).  A bare CANCELLED future never wakes a waiter.
+  return f._state in (CANCELLED_AND_NOTIFIED, FINISHED)
 
 
 def wait(fs, timeout=None, return_when=ALL_COMPLETED):
@@ -87,6 +90,11 @@ class ThreadPoolExecutor(_cf.Executor):
       max_workers = 20
     if max_workers <= 0:
       raise ValueError('max_workers must be greater than 0')
+    if initializer is not None:
+      if not callable(initializer):
+        raise TypeError('initializer must be a callable')
+      # not modelled (the library passes none): refuse instead of ignoring it
+      raise sched.HarnessError('ThreadPoolExecutor(initializer=) is not modelled')
     self._max_workers = max_workers
     self._prefix = thread_name_prefix or 'pool'
     self._queue = collections.deque()
